@@ -413,12 +413,48 @@ class Delegator(ast.NodeTransformer):
         return node
 
 
+class SqlHoister(ast.NodeTransformer):
+    """`conn.execute(f"...", params)` -> `_sql_1 = f"..."; conn.execute(_sql_1, params)` (statement-level calls only)"""
+
+    def __init__(self) -> None:
+        self.k = 0
+
+    def _fix(self, body: list[ast.stmt]) -> list[ast.stmt]:
+        out: list[ast.stmt] = []
+        for st in body:
+            call = None
+            if isinstance(st, ast.Expr) and isinstance(st.value, ast.Call):
+                call = st.value
+            elif isinstance(st, ast.Assign) and isinstance(st.value, ast.Call):
+                call = st.value
+            elif isinstance(st, ast.Assign) and isinstance(st.value, ast.Attribute) and isinstance(st.value.value, ast.Call):
+                call = st.value.value
+            if call is not None and isinstance(call.func, ast.Attribute) and call.func.attr in ("execute", "executemany") and call.args and isinstance(call.args[0], (ast.JoinedStr, ast.Constant)) and (not isinstance(call.args[0], ast.Constant) or isinstance(call.args[0].value, str)):
+                self.k += 1
+                nm = f"_sql_{self.k}"
+                out.append(ast.copy_location(ast.Assign(targets=[ast.Name(id=nm, ctx=ast.Store())], value=call.args[0], type_comment=None), st))
+                call.args[0] = ast.Name(id=nm, ctx=ast.Load())
+            out.append(st)
+        return out
+
+    def generic_visit(self, node):
+        super().generic_visit(node)
+        for fld in ("body", "orelse", "finalbody"):
+            v = getattr(node, fld, None)
+            if isinstance(v, list) and v and isinstance(v[0], ast.stmt):
+                setattr(node, fld, self._fix(v))
+        return node
+
+
 def rewrite_tree(root: Path, rename: bool, mode: str = "") -> int:
     n = 0
     sigs = collect_signatures(root) if mode in ("kw", "pos") else {}
     ptable = collect_param_names(root) if mode == "params" else {}
     for f in list(root.rglob("*.py")):
         tree = ast.parse(f.read_text())
+        if mode == "sqlvar":
+            tree = SqlHoister().visit(tree)
+            ast.fix_missing_locations(tree)
         if mode == "delegate":
             tree = Delegator().visit(tree)
             ast.fix_missing_locations(tree)
